@@ -498,3 +498,241 @@ Proof.
     rewrite En. apply (fig_occ_single_le _ _ _ _ _ _ _ _ _ _ Hf Hty).
   - right. split; [exact A1|]. exists ckb, cki. auto.
 Qed.
+
+(** ** 3. C02: the keys of a shape, in terms of the data *)
+
+(** key [(inv, p, vc)] passes: some type key [k] of value class [vc] and some
+    cardinality key [ck] have a positive count whose ratio to the class size
+    reaches the threshold (inverse keys only with inverse paths) *)
+Definition key_passes_occ (fa : FreqAlg) (c : rcfg) (thr : F fa) (I : insts) (g : graph)
+           (cls : str) (inv : bool) (p : str) (vc : vclass) : Prop :=
+  (inv = true -> r_inverse c = true) /\
+  exists k ck, value_class (r_tau c) p [k] = vc /\
+    0 < occ (dir_of inv) (r_tau c) I g cls p k ck /\
+    fle fa thr (ratio fa (occ (dir_of inv) (r_tau c) I g cls p k ck) (class_count I cls)) = true.
+
+(** no shape label and no node kind is the string "NONLITERAL" *)
+Lemma shape_name_not_nonliteral ns u : shape_name ns u <> c_NONLITERAL_ELEM_TYPE.
+Proof.
+  unfold shape_name. destruct (prefixb (Str "@") u) eqn:E1.
+  - intros ->. vm_compute in E1. discriminate E1.
+  - destruct (prefixb (Str "<") u && suffixb (Str ">") u); intros H;
+      match type of H with _ ++ ?X = _ => remember X as X' eqn:EX; clear EX end;
+      vm_compute in H; discriminate H.
+Qed.
+
+Lemma In_count_in k l : 0 < count_in k l -> In k l.
+Proof. rewrite count_in_count_str. apply count_str_pos. Qed.
+
+(** outside the typing property, a key contributed by a triple is a node
+    kind, a shape label or a literal's datatype *)
+Lemma contrib_not_nonliteral dir tau (I : insts) g t i p :
+  no_nonliteral_datatype g -> In t g -> p <> tau ->
+  ~ In c_NONLITERAL_ELEM_TYPE (contrib dir tau I t i p).
+Proof.
+  intros Hg Ht Hp Hin.
+  assert (Hlab : forall id, ~ In c_NONLITERAL_ELEM_TYPE (shape_labels I id)).
+  { intros id H. unfold shape_labels in H. apply in_map_iff in H. destruct H as [u [Hu _]].
+    apply (shape_name_not_nonliteral _ _ Hu). }
+  assert (Hel : forall n, elem_type n <> c_NONLITERAL_ELEM_TYPE).
+  { intros n. unfold elem_type. destruct (nk n); intros H; vm_compute in H; discriminate H. }
+  unfold contrib in Hin. destruct dir.
+  - destruct (str_eqb (nid (ts t)) i && str_eqb (tp t) p) eqn:E; [|destruct Hin].
+    apply andb_true_iff in E. destruct E as [_ E]. apply str_eqb_eq in E.
+    assert (Et : str_eqb (tp t) tau = false) by (apply str_eqb_neq; congruence).
+    unfold keys_direct in Hin. rewrite Et in Hin. destruct (to t) as [o|l dt] eqn:Eo.
+    + destruct Hin as [Hin|Hin]; [apply (Hel o); exact Hin | apply (Hlab _ Hin)].
+    + destruct Hin as [Hin|[]]. apply (Hg t l dt Ht Eo). exact Hin.
+  - destruct (to t) as [o|l dt]; [|destruct Hin].
+    destruct (str_eqb (nid o) i && str_eqb (tp t) p) eqn:E; [|destruct Hin].
+    apply andb_true_iff in E. destruct E as [_ E]. apply str_eqb_eq in E.
+    assert (Et : str_eqb (tp t) tau = false) by (apply str_eqb_neq; congruence).
+    unfold keys_inverse in Hin. rewrite Et in Hin.
+    destruct Hin as [Hin|Hin]; [apply (Hel (ts t)); exact Hin|].
+    destruct (nk (ts t)); [apply (Hlab _ Hin) | destruct Hin].
+Qed.
+
+Lemma occ_not_nonliteral dir tau (I : insts) g cls p ck :
+  no_nonliteral_datatype g -> p <> tau -> occ dir tau I g cls p c_NONLITERAL_ELEM_TYPE ck = 0.
+Proof.
+  intros Hg Hp. destruct (N.eq_0_gt_0_cases (occ dir tau I g cls p c_NONLITERAL_ELEM_TYPE ck)) as [E|E]; [exact E|].
+  exfalso. assert (H : exists card, 0 < occ dir tau I g cls p c_NONLITERAL_ELEM_TYPE card) by (exists ck; exact E).
+  apply occ_pos_iff in H. destruct H as (i & cs & _ & _ & Hc).
+  unfold cnt in Hc. apply sumN_pos_ex in Hc. destruct Hc as [x [Hx Hpos]].
+  apply in_map_iff in Hx. destruct Hx as [t [<- Ht]]. apply In_count_in in Hpos.
+  apply (contrib_not_nonliteral dir tau I g t i p Hg Ht Hp Hpos).
+Qed.
+
+Section ComposedKeys.
+  Variable fa : FreqAlg.
+  Variable c : rcfg.
+  Variable g : graph.
+  Variable ns : nsdict.
+  Variable I : insts.
+  Variable P : cprofile.
+  Variable C : ccounts.
+  Variable ID : idict.
+  Hypothesis Htrack : track (r_tau c) (mode_of c) (r_cap c) g = inl I.
+  Hypothesis Hprof : profile (pcfg_of c) I g = inl (P, C, ID).
+  Variable thr : F fa.
+
+  Let cfg := scfg_of c ns.
+  Let tau := r_tau c.
+
+  (** soundness: whatever [remove_empty] *)
+  Lemma key_passes_to_occ ce inv p vc :
+    In ce P -> key_passes fa cfg thr (cnt_of C (fst ce)) (class_pd cfg ce inv) p vc ->
+    key_passes_occ fa c thr I g (fst ce) inv p vc.
+  Proof.
+    intros Hce (k & ck & n & He & Hv & Hf).
+    destruct (pd_entry_occ c g ns I P C ID Htrack Hprof ce inv p k ck n Hce He) as (En & Hp & Hi).
+    rewrite (cnt_of_class_count c g I P C ID Htrack Hprof _ (P_keys_sub c g I P C ID Htrack Hprof ce Hce)) in Hf.
+    split; [exact Hi|]. exists k, ck. subst n. auto.
+  Qed.
+
+  (** completeness: when no class key was removed by the cleaning *)
+  Lemma occ_to_key_passes ce inv p vc :
+    In ce P -> r_remove_empty c = false ->
+    key_passes_occ fa c thr I g (fst ce) inv p vc ->
+    key_passes fa cfg thr (cnt_of C (fst ce)) (class_pd cfg ce inv) p vc.
+  Proof.
+    intros Hce Hre (Hi & k & ck & Hv & Hp & Hf).
+    exists k, ck, (occ (dir_of inv) (r_tau c) I g (fst ce) p k ck). split; [|split; [exact Hv|]].
+    - apply (occ_pd_entry c g ns I P C ID Htrack Hprof ce inv p k ck Hce Hi); [|exact Hp].
+      rewrite (P_keys_all c g I P C ID Htrack Hprof Hre). auto.
+    - rewrite (cnt_of_class_count c g I P C ID Htrack Hprof _ (P_keys_sub c g I P C ID Htrack Hprof ce Hce)). exact Hf.
+  Qed.
+
+  Lemma pd_no_nl_of_graph ce inv :
+    In ce P -> no_nonliteral_datatype g -> pd_no_nl cfg (class_pd cfg ce inv).
+  Proof.
+    intros Hce Hg p k ck n He Hp Hk. subst k.
+    destruct (pd_entry_occ c g ns I P C ID Htrack Hprof ce inv p _ ck n Hce He) as (En & Hpos & _).
+    rewrite (occ_not_nonliteral _ _ _ _ _ _ _ Hg Hp) in En. lia.
+  Qed.
+End ComposedKeys.
+
+Theorem e2e_keys_iff_occ fa c thr g ns shapes :
+  r_remove_empty c = false -> run_shapes fa c thr g = inl (ns, shapes) ->
+  exists I, track (r_tau c) (mode_of c) (r_cap c) g = inl I /\
+    map sh_class shapes = class_keys (targets_of (pcfg_of c)) I /\
+    forall sh, In sh shapes ->
+      sh_n sh = class_count I (sh_class sh) /\
+      (forall inv p vc, In (inv, p, vc) (map (skey (scfg_of c ns)) (sh_stmts sh)) <->
+                        key_passes_occ fa c thr I g (sh_class sh) inv p vc) /\
+      (no_nonliteral_datatype g -> NoDup (map (skey (scfg_of c ns)) (sh_stmts sh))).
+Proof.
+  intros Hre H. destruct (e2e_header fa c thr g ns shapes H) as (I0 & HT0 & _).
+  apply run_shapes_decompose in H. destruct H as (I & P & C & ID & _ & HT & HP & HS).
+  exists I. split; [exact HT|]. split.
+  - rewrite (proj2 (shex_classes _ _ _ _ _ _ HS) Hre). apply (P_keys_all c g I P C ID HT HP Hre).
+  - intros sh Hsh. pose proof (K1 fa (scfg_of c ns) thr P C shapes Hre HS) as F.
+    destruct (Forall2_In_r _ _ _ _ F Hsh) as (ce & Hce & _ & E2 & E3 & Hk & Hn). rewrite E2. split; [|split].
+    + rewrite E3. apply (cnt_of_class_count c g I P C ID HT HP). apply (P_keys_sub c g I P C ID HT HP ce Hce).
+    + intros inv p vc. rewrite Hk. split.
+      * apply (key_passes_to_occ fa c g ns I P C ID HT HP thr ce inv p vc Hce).
+      * apply (occ_to_key_passes fa c g ns I P C ID HT HP thr ce inv p vc Hce Hre).
+    + intros Hg. apply Hn; apply (pd_no_nl_of_graph c g ns I P C ID HT HP ce _ Hce Hg).
+Qed.
+
+(** with [remove_empty]: soundness only (a key whose only passing entries
+    refer to removed shapes is deleted: [ShexStage_K2_remove_key_refuted]) *)
+Theorem e2e_keys_remove fa c thr g ns shapes :
+  r_remove_empty c = true -> run_shapes fa c thr g = inl (ns, shapes) ->
+  exists I, track (r_tau c) (mode_of c) (r_cap c) g = inl I /\
+    forall sh, In sh shapes ->
+      In (sh_class sh) (class_keys (targets_of (pcfg_of c)) I) /\
+      sh_n sh = class_count I (sh_class sh) /\ sh_stmts sh <> [] /\
+      (forall inv p vc, In (inv, p, vc) (map (skey (scfg_of c ns)) (sh_stmts sh)) ->
+                        key_passes_occ fa c thr I g (sh_class sh) inv p vc) /\
+      (no_nonliteral_datatype g -> NoDup (map (skey (scfg_of c ns)) (sh_stmts sh))).
+Proof.
+  intros Hre H. apply run_shapes_decompose in H. destruct H as (I & P & C & ID & _ & HT & HP & HS).
+  exists I. split; [exact HT|]. intros sh Hsh.
+  destruct (K1_remove fa (scfg_of c ns) thr P C shapes Hre HS sh Hsh) as (ce & Hce & _ & E2 & E3 & Hne & Hk & Hn).
+  pose proof (P_keys_sub c g I P C ID HT HP ce Hce) as Hck. rewrite E2.
+  split; [exact Hck|]. split; [rewrite E3; apply (cnt_of_class_count c g I P C ID HT HP _ Hck)|].
+  split; [exact Hne|]. split.
+  - intros inv p vc Hin. apply (key_passes_to_occ fa c g ns I P C ID HT HP thr ce inv p vc Hce). apply Hk. exact Hin.
+  - intros Hg. apply Hn; apply (pd_no_nl_of_graph c g ns I P C ID HT HP ce _ Hce Hg).
+Qed.
+
+(** the [_max] form: a key passes iff the LARGEST count among the (type key,
+    cardinality key) pairs of its value class does *)
+Definition key_passes_occ_max (fa : FreqAlg) (c : rcfg) (thr : F fa) (I : insts) (g : graph)
+           (cls : str) (inv : bool) (p : str) (vc : vclass) : Prop :=
+  (inv = true -> r_inverse c = true) /\
+  exists k ck, value_class (r_tau c) p [k] = vc /\
+    0 < occ (dir_of inv) (r_tau c) I g cls p k ck /\
+    (forall k' ck', value_class (r_tau c) p [k'] = vc ->
+                    occ (dir_of inv) (r_tau c) I g cls p k' ck' <= occ (dir_of inv) (r_tau c) I g cls p k ck) /\
+    fle fa thr (ratio fa (occ (dir_of inv) (r_tau c) I g cls p k ck) (class_count I cls)) = true.
+
+Lemma key_passes_occ_max_sound fa c thr I g cls inv p vc :
+  key_passes_occ_max fa c thr I g cls inv p vc -> key_passes_occ fa c thr I g cls inv p vc.
+Proof. intros (Hi & k & ck & A & B & _ & D). split; [exact Hi|]. exists k, ck. auto. Qed.
+
+Section KeysMax.
+  Variable fa : FreqAlg.
+  Variable okN : N -> Prop.
+  Variable okF : F fa -> Prop.
+  Hypothesis L : FreqLaws fa okN okF.
+
+  Theorem e2e_keys_max c thr g ns shapes :
+    r_remove_empty c = false -> okF thr -> run_shapes fa c thr g = inl (ns, shapes) ->
+    exists I, track (r_tau c) (mode_of c) (r_cap c) g = inl I /\
+      forall sh, In sh shapes ->
+        (0 < class_count I (sh_class sh) -> okN (class_count I (sh_class sh))) ->
+        forall inv p vc, In (inv, p, vc) (map (skey (scfg_of c ns)) (sh_stmts sh)) <->
+                         key_passes_occ_max fa c thr I g (sh_class sh) inv p vc.
+  Proof.
+    intros Hre Hthr H. destruct (e2e_keys_iff_occ fa c thr g ns shapes Hre H) as (I0 & HT0 & _ & HK0).
+    apply run_shapes_decompose in H. destruct H as (I & P & C & ID & _ & HT & HP & HS).
+    assert (EI : I0 = I) by congruence. subst I0.
+    exists I. split; [exact HT|]. intros sh Hsh HokN inv p vc.
+    destruct (HK0 sh Hsh) as (_ & HK & _). split; [|intros Hm; apply HK, key_passes_occ_max_sound, Hm].
+    intros Hin. pose proof (proj1 (HK inv p vc) Hin) as Hocc.
+    pose proof (K1 fa (scfg_of c ns) thr P C shapes Hre HS) as F.
+    destruct (Forall2_In_r _ _ _ _ F Hsh) as (ce & Hce & _ & E2 & _ & Hk & _).
+    pose proof (proj1 (Hk inv p vc) Hin) as Hkp. rewrite E2 in *.
+    pose proof (cnt_of_class_count c g I P C ID HT HP _ (P_keys_sub c g I P C ID HT HP ce Hce)) as Ecc.
+    rewrite Ecc in Hkp.
+    assert (Hpos : 0 < class_count I (fst ce)).
+    { destruct Hocc as (_ & k & ck & _ & Hp & _).
+      pose proof (occ_le_class_count (dir_of inv) (r_tau c) I g (fst ce) p k ck). lia. }
+    apply (key_passes_max fa (scfg_of c ns) okF okN (ratio_wf _ _ _ L) (fle_trans _ _ _ L) (ratio_mono _ _ _ L)
+             thr _ _ p vc Hthr (HokN Hpos)) in Hkp.
+    destruct Hkp as (k & ck & n & He & Hv & Hmax & Hf).
+    destruct (pd_entry_occ c g ns I P C ID HT HP ce inv p k ck n Hce He) as (En & Hp & Hi).
+    split; [exact Hi|]. exists k, ck. subst n. split; [exact Hv|]. split; [exact Hp|]. split; [|exact Hf].
+    intros k' ck' Hv'.
+    destruct (N.eq_0_gt_0_cases (occ (dir_of inv) (r_tau c) I g (fst ce) p k' ck')) as [E|E]; [rewrite E; lia|].
+    apply (Hmax k' ck' _); [|exact Hv'].
+    apply (occ_pd_entry c g ns I P C ID HT HP ce inv p k' ck' Hce Hi); [|exact E].
+    rewrite (P_keys_all c g I P C ID HT HP Hre). auto.
+  Qed.
+End KeysMax.
+
+(** the two algebras *)
+Theorem e2e_keys_max_B c thr g ns shapes :
+  r_remove_empty c = false -> wf_frac thr -> run_shapes BAlg c thr g = inl (ns, shapes) ->
+  exists I, track (r_tau c) (mode_of c) (r_cap c) g = inl I /\
+    forall sh, In sh shapes -> class_count I (sh_class sh) < 2 ^ 53 ->
+      forall inv p vc, In (inv, p, vc) (map (skey (scfg_of c ns)) (sh_stmts sh)) <->
+                       key_passes_occ_max BAlg c thr I g (sh_class sh) inv p vc.
+Proof.
+  intros Hre Hthr H. destruct (e2e_keys_max BAlg okN53 wf_frac BAlg_laws c thr g ns shapes Hre Hthr H) as (I & HT & HK).
+  exists I. split; [exact HT|]. intros sh Hsh Hlt. apply (HK sh Hsh). intros Hpos. split; assumption.
+Qed.
+
+Theorem e2e_keys_max_Q c thr g ns shapes :
+  r_remove_empty c = false -> wf_frac thr -> run_shapes QAlg c thr g = inl (ns, shapes) ->
+  exists I, track (r_tau c) (mode_of c) (r_cap c) g = inl I /\
+    forall sh, In sh shapes ->
+      forall inv p vc, In (inv, p, vc) (map (skey (scfg_of c ns)) (sh_stmts sh)) <->
+                       key_passes_occ_max QAlg c thr I g (sh_class sh) inv p vc.
+Proof.
+  intros Hre Hthr H.
+  destruct (e2e_keys_max QAlg (fun d => 0 < d) wf_frac QAlg_laws c thr g ns shapes Hre Hthr H) as (I & HT & HK).
+  exists I. split; [exact HT|]. intros sh Hsh. apply (HK sh Hsh). auto.
+Qed.
